@@ -114,6 +114,15 @@ type World struct {
 	Mirrors          []*World
 	MirrorConcurrent bool
 	Diverged         []string
+	// DB is the node's database; Restart builds a fresh application object on it.
+	DB cosmosdb.DB
+	// MempoolNoise: before executing a block the primary (only) runs CheckTx on every tx of the block, like a
+	// node whose mempool saw them; replicas execute the bare blocks. RestartEvery > 0: replica k is "restarted"
+	// (new app object on the same database, all process state lost) every RestartEvery blocks, k = last replica.
+	MempoolNoise bool
+	RestartEvery int64
+	Restarts     int
+	CheckTxs     int
 }
 
 // DefaultConsensusParams mirrors the repository's testing params.
@@ -165,8 +174,9 @@ func NewWorld(cfg Config) *World {
 		w.ByAddr[a.Addr.String()] = a
 	}
 
+	w.DB = cosmosdb.NewMemDB()
 	w.App = band.NewBandApp(
-		log.NewNopLogger(), cosmosdb.NewMemDB(), nil, true, map[int64]bool{}, w.Dir,
+		log.NewNopLogger(), w.DB, nil, true, map[int64]bool{}, w.Dir,
 		sims.EmptyAppOptions{}, 100, baseapp.SetChainID(cfg.ChainID),
 	)
 	gs := w.buildGenesis()
@@ -216,6 +226,16 @@ func (w *World) AddMirror() *World {
 	}
 	w.Mirrors = append(w.Mirrors, m)
 	return m
+}
+
+// Restart replaces the application object by a fresh one loaded from the node's database, as a process
+// restart does: committed state survives, everything held in memory is lost.
+func (w *World) Restart() {
+	w.App = band.NewBandApp(
+		log.NewNopLogger(), w.DB, nil, true, map[int64]bool{}, w.Dir,
+		sims.EmptyAppOptions{}, 100, baseapp.SetChainID(w.ChainID),
+	)
+	w.Restarts++
 }
 
 // Close removes the home dir.
@@ -495,6 +515,24 @@ func (w *World) Exec(req *abci.RequestFinalizeBlock) (resp *abci.ResponseFinaliz
 	}
 	outs := make([]out, len(w.Mirrors))
 	run := func(i int, m *World) { r, e := m.execOne(req); outs[i] = out{r, e} }
+	if w.MempoolNoise {
+		for _, tx := range req.Txs {
+			func() {
+				defer func() { recover() }()
+				w.App.CheckTx(&abci.RequestCheckTx{Tx: tx, Type: abci.CheckTxType_New})
+				w.CheckTxs++
+			}()
+		}
+	}
+	// restart right after a commit: nothing uncommitted (authority messages are written into the working
+	// store between blocks) may be lost by the harness itself
+	defer func() {
+		if w.RestartEvery > 0 && req.Height%w.RestartEvery == 0 && err == nil {
+			m := w.Mirrors[len(w.Mirrors)-1]
+			m.Restart()
+			w.Restarts++
+		}
+	}()
 	if w.MirrorConcurrent {
 		var wg sync.WaitGroup
 		for i, m := range w.Mirrors {
